@@ -18,11 +18,18 @@ def confirm(src):
     try:
         sh(f"git -C /repo worktree add --detach -f {wt} HEAD")
         env = dict(os.environ, PYTHONPATH=wt, OMP_NUM_THREADS="2")
-        r0 = sh(f"/venv/bin/python {src}/equiv.py", cwd=wt, env=env, timeout=3000)
+        # some scripts assert the location of the sub-agent's scratch worktree: point them at this one
+        eq = os.path.join(d, "equiv.py")
+        txt = open(os.path.join(src, "equiv.py"), encoding="utf-8").read()
+        import re as _re
+        txt = _re.sub(r"/tmp/seed/C\d\d(?=[/\"'])", wt, txt)
+        open(eq, "w", encoding="utf-8").write(txt)
+        src_eq = eq
+        r0 = sh(f"/venv/bin/python {src_eq}", cwd=wt, env=env, timeout=3000)
         a = sh(f"git -C {wt} apply {src}/patch.diff")
         res["applies"] = a.returncode == 0
         if a.returncode == 0:
-            r1 = sh(f"/venv/bin/python {src}/equiv.py", cwd=wt, env=env, timeout=3000)
+            r1 = sh(f"/venv/bin/python {src_eq}", cwd=wt, env=env, timeout=3000)
             res["equiv_exit"] = (r0.returncode, r1.returncode)
             res["equiv_identical"] = r0.returncode == 0 and r1.returncode == 0 and r0.stdout == r1.stdout and len(r0.stdout) > 0
             res["equiv_lines"] = r0.stdout.count("\n")
